@@ -17,4 +17,82 @@ Theorem C14_orig_refuted :
   parse_dtd_orig "P1DT" = Some DAY_NS /\ parse_dtd "P1DT" = None.
 Proof. exact orig_refuted. Qed.
 
+(* --- dates: every FEEL date (years -999999999..999999999, negative, below 1000) prints to a text that reads back as itself --- *)
+Theorem C14_print_parse_date : forall y m d, feel_date y m d = true -> parse_date (print_date (y, m, d)) = Some (y, m, d).
+Proof. exact print_parse_date. Qed.
+
+(* impossible calendar dates never parse *)
+Theorem C14_parse_date_valid : forall s y m d, parse_date s = Some (y, m, d) -> feel_date y m d = true.
+Proof. exact parse_date_valid. Qed.
+
+(* --- years-and-months durations of any magnitude (years component up to 2^64-1) --- *)
+Theorem C14_print_parse_ymd : forall n, Z.abs n / 12 <= u64_max -> parse_ymd (print_ymd n) = Some n.
+Proof. exact print_parse_ymd. Qed.
+
+Theorem C14_ymd_normal_form : forall n, 0 <= Z.abs n mod 12 < 12 /\ print_ymd 14 = "P1Y2M" /\ print_ymd (-14) = "-P1Y2M" /\
+  option_map print_ymd (parse_ymd "P14M") = Some "P1Y2M".
+Proof. exact ymd_normal_form. Qed.
+
+Theorem C14_dtd_normal_form : forall n,
+  0 <= dtd_hours n < 24 /\ 0 <= dtd_minutes n < 60 /\ 0 <= dtd_seconds n < 60 /\ 0 <= dtd_subsec n < NS /\
+  option_map print_dtd (parse_dtd "PT36H") = Some "P1DT12H" /\ option_map print_dtd (parse_dtd "-PT90M") = Some "-PT1H30M" /\
+  option_map print_dtd (parse_dtd "PT86400S") = Some "P1D".
+Proof. exact dtd_normal_form. Qed.
+
+(* --- zones: every offset -14:59:59..+14:59:59 with its sign (finite sweep of 107998 offsets), Z, no zone, named zones --- *)
+Theorem C14_print_parse_zone_offset : forall db o, -53999 <= o <= 53999 -> o <> 0 ->
+  parse_zone db (print_zone (ZOffset o)) = Some (ZOffset o).
+Proof. exact print_parse_zone_offset. Qed.
+
+Theorem C14_print_parse_zone : forall db z, zone_ok db z -> parse_zone db (print_zone z) = Some z.
+Proof. exact print_parse_zone. Qed.
+
+(* offset hours above 14, offset minutes or seconds above 59 never parse; a parsed offset is not 0 (that is UTC) *)
+Theorem C14_parse_zone_range : forall db s o, parse_zone db s = Some (ZOffset o) -> o <> 0 /\ -53999 <= o <= 53999.
+Proof. exact parse_zone_range. Qed.
+
+(* --- times.  Proved for whole seconds with every zone; the fractional part (nanoseconds_to_string / fraction_to_nanos
+   round trip) is proved only on the witness grid below and otherwise rests on the correspondence check --- *)
+Theorem C14_print_parse_time_partial : forall db t, t_ns t = 0 -> 0 <= t_h t < 24 -> 0 <= t_mi t < 60 -> 0 <= t_s t < 60 ->
+  zone_ok db (t_zone t) -> parse_time db (print_time t) = Some t.
+Proof. exact print_parse_time_whole. Qed.
+
+(* hour 24, minute or second 60 and above never parse *)
+Theorem C14_parse_time_valid : forall db s t, parse_time db s = Some t ->
+  t_h t < 24 /\ t_mi t < 60 /\ t_s t < 60 /\ (forall o, t_zone t = ZOffset o -> o <> 0 /\ -53999 <= o <= 53999).
+Proof. exact parse_time_valid. Qed.
+
+(* finite witness grids (bound = the listed grids): 12 nanosecond values x 9 zones x 3 times of day; x 7 dates; 864 durations *)
+Theorem C14_print_parse_time_grid_partial : forall t, In t time_grid -> parse_time db0 (print_time t) = Some t.
+Proof. exact print_parse_time_grid. Qed.
+
+Theorem C14_print_parse_datetime_grid_partial : forall d t, In d date_grid -> In t time_grid ->
+  parse_datetime db0 (print_datetime (d, t)) = Some (d, t).
+Proof. exact print_parse_datetime_grid. Qed.
+
+Theorem C14_print_parse_dtd_grid_partial : forall n, In n dtd_grid -> parse_dtd (print_dtd n) = Some n.
+Proof. exact print_parse_dtd_grid. Qed.
+
+Example C14_nonvacuous :
+  parse_date "2024-02-29" = Some (2024, 2, 29) /\ parse_date "2023-02-29" = None /\
+  option_map print_time (parse_time db0 "10:00:00.509083-00:30") = Some "10:00:00.509083-00:30" /\
+  parse_time db0 "24:00:00" = None /\ parse_time db0 "10:00:60" = None /\ parse_time db0 "10:00:00+15:00" = None /\
+  parse_duration "P14M" = Some (DYm 14) /\ parse_duration "PT36H" = Some (DDt 129600000000000) /\ parse_duration "P1Y2D" = None /\
+  option_map print_datetime (bif_date_and_time db0 "-0005-01-01T00:00:00.000000001@Europe/Warsaw") = Some "-0005-01-01T00:00:00.000000001@Europe/Warsaw".
+Proof. exact c14_nonvacuous. Qed.
+
 Print Assumptions C14_orig_refuted.
+Print Assumptions C14_print_parse_date.
+Print Assumptions C14_parse_date_valid.
+Print Assumptions C14_print_parse_ymd.
+Print Assumptions C14_ymd_normal_form.
+Print Assumptions C14_dtd_normal_form.
+Print Assumptions C14_print_parse_zone_offset.
+Print Assumptions C14_print_parse_zone.
+Print Assumptions C14_parse_zone_range.
+Print Assumptions C14_print_parse_time_partial.
+Print Assumptions C14_parse_time_valid.
+Print Assumptions C14_print_parse_time_grid_partial.
+Print Assumptions C14_print_parse_datetime_grid_partial.
+Print Assumptions C14_print_parse_dtd_grid_partial.
+Print Assumptions C14_nonvacuous.
